@@ -6,6 +6,7 @@ decorated, as_buildable()+build - under the invocation trace of the recording ca
 """
 from __future__ import annotations
 
+import copy
 import functools
 import importlib
 import os
@@ -360,6 +361,49 @@ def probe_canon(x):
   return ProbeCanon('built').go(x)
 
 
+class _LooseContainers(ProbeCanon):
+  """Plain list / dict / set objects carry no identity (every reference is expanded)."""
+
+  def go(self, x):
+    if type(x) in (list, dict, set):
+      x = copy.copy(x)            # fresh id, pinned by tag(): never a memo hit
+    return super().go(x)
+
+
+def captured_mutables(mod, progs):
+  """ids of list / dict / set objects held in closure cells of the module's programs."""
+  out = {}
+  for p in progs:
+    try:
+      fn = resolve(mod, p.rawname)
+    except AttributeError:
+      continue
+    for cell in getattr(fn, '__closure__', None) or ():
+      try:
+        v = cell.cell_contents
+      except ValueError:
+        continue
+      if type(v) in (list, dict, set):
+        out[id(v)] = v
+  return out
+
+
+def diagnose_difference(mod, progs, text, direct, built):
+  """Mechanism suffix for built-differs-from-direct-call ('' = unexplained)."""
+  if _LooseContainers('built').go(direct) != _LooseContainers('built').go(built):
+    return ''
+  capt = captured_mutables(mod, progs)
+  pc = ProbeCanon('built')
+  pc.go(direct)
+  in_direct = any(id(x) in capt for x in pc.pins)
+  if in_direct and 'experimental_always_inline=False' in text:
+    # a mutable object captured from the environment reaches the result both through a
+    # configuration (build copies containers) and through a non-inlined auto_config function
+    # that is simply CALLED at build time (it hands out the captured object itself)
+    return ':container-sharing-only:captured-mutable-reaches-result-through-noninlined-call'
+  return ':container-sharing-only'
+
+
 def resolve(mod, dotted):
   obj = mod
   for part in dotted.split('.'):
@@ -481,7 +525,7 @@ def run_module(rng, acc, scratch, index):
     if c_built != c_raw:
       feats = sorted(p.constructs & {'arg_factory', 'partial', 'with_tags', 'splat', 'closure',
                                      'noninline-call', 'inline-call', 'control-flow'})
-      acc.violation('built-differs-from-direct-call',
+      acc.violation('built-differs-from-direct-call' + diagnose_difference(mod, progs, text, r_raw[1], built[1]),
                     'build(fn.as_buildable(*args)) is not isomorphic to fn(*args) '
                     f'(constructs: {feats})',
                     witness(config=safe_repr(cfg[1], 500), built=safe_repr(built[1], 300),
